@@ -123,12 +123,18 @@ class StructParam(Parameter):
                 def struct_read_func(self, name=name, flist=tuple(
                         (m, f'read_{p.name}') for m, p in self.paramdict.items())):
                     pobj = self.parameters[name]
+                    result = {}
                     # disable updates generated from the callbacks of individual params
                     pobj.insideRW += 1   # guarded by self.accessLock
                     try:
-                        return {m: getattr(self, f)() for m, f in flist}
+                        for m, f in flist:
+                            result[m] = getattr(self, f)()
+                        return result
                     finally:
                         pobj.insideRW -= 1
+                        if len(result) < len(flist):
+                            # failed in between: the members treated so far have changed
+                            setattr(self, name, dict(getattr(self, name), **result))
 
                 setattr(owner, struct_read_name, struct_read_func)
 
@@ -137,11 +143,17 @@ class StructParam(Parameter):
                 def struct_write_func(self, value, name=name, funclist=tuple(
                         (m, f'write_{p.name}') for m, p in self.paramdict.items())):
                     pobj = self.parameters[name]
+                    result = {}
                     pobj.insideRW += 1  # guarded by self.accessLock
                     try:
-                        return {m: getattr(self, f)(value[m]) for m, f in funclist}
+                        for m, f in funclist:
+                            result[m] = getattr(self, f)(value[m])
+                        return result
                     finally:
                         pobj.insideRW -= 1
+                        if len(result) < len(funclist):
+                            # failed in between: the members treated so far have changed
+                            setattr(self, name, dict(getattr(self, name), **result))
 
                 setattr(owner, struct_write_name, struct_write_func)
 
